@@ -268,7 +268,9 @@ int main()
   const char* only = getenv("VERIF_C09_CLASS");
 
   static const char* repl[] = {"-1", "0", "1", "2", "7", "2147483647", "-2147483648", "1000000000", "99999999999", "1e308", "-1e-320",
-                               "nan", "inf", "NA", "abc", "#", "12abc", "1.5", "3000000", "65536", "-7"};
+                               "nan", "inf", "NA", "abc", "#", "12abc", "1.5", "3000000", "65536", "-7",
+                               // counts whose products with the neighbouring counts wrap around in 32-bit arithmetic
+                               "1073741824", "536870912", "268435456", "2147483648", "4294967296", "4294967297", "46341", "1431655766"};
   const int nrepl = sizeof(repl) / sizeof(repl[0]);
 
   for (long inst = 0; inst < ninst; inst++)
@@ -307,6 +309,25 @@ int main()
           size_t lb = content.rfind('\n', b); lb = (lb == std::string::npos) ? 0 : lb + 1; size_t le = content.find('\n', e); le = (le == std::string::npos) ? content.size() : le + 1;
           mutated = content.substr(0, lb) + content.substr(le); kind = "delete-line-of-token" + std::to_string(ti); }
         offer(c, mutated, kind, st, asan); st.hit("token_mutations");
+      }
+      // --- systematic pass over the counts of the header: every integer token among the first 120 tokens (at most 20 of them) is replaced by
+      //     each of the values whose product with a neighbouring count wraps around in 32-bit arithmetic
+      {
+        static const char* wrap[] = {"1073741824", "2147483648", "4294967296", "46341", "-1"};
+        int done = 0;
+        for (size_t ti = 0; ti < toks.size() && ti < 120 && done < 20; ti++)
+        {
+          auto [b, e] = toks[ti];
+          bool integer = e > b; for (size_t q = b; q < e; q++) if (!isdigit((unsigned char)content[q])) integer = false;
+          if (!integer) continue;
+          done++;
+          for (const char* r : wrap)
+          {
+            std::string mutated = content.substr(0, b) + r + content.substr(e);
+            std::string kind = "header-count" + std::to_string(ti) + ":=" + r;
+            offer(c, mutated, kind, st, asan); st.hit("header_count_mutations");
+          }
+        }
       }
       // --- wrong type and garbage
       offer(c, "Nonsense\n" + content.substr(content.find('\n') == std::string::npos ? 0 : content.find('\n') + 1), "wrong-tag", st, asan);
